@@ -34,8 +34,12 @@ def judge(t, wrap):
     import re
     pat = to_pattern(t)
     if wrap and not any(c.isdigit() for c in t):
-        pat_full, text = pat + "MAJOR" + pat, t + "12" + t
-        literal_pos = list(range(len(t))) + list(range(len(t) + 2, 2 * len(t) + 2))
+        # the literal text around a real part; `wrap` may name the part (a tag part only where no letter of the text touches it)
+        part, val = wrap if isinstance(wrap, (list, tuple)) else ("MAJOR", "12")
+        if part in ("TAG", "PYTAG") and (t[:1].isalpha() or t[-1:].isalpha()):
+            part, val = "MAJOR", "12"
+        pat_full, text = pat + part + pat, t + val + t
+        literal_pos = list(range(len(t))) + list(range(len(t) + len(val), 2 * len(t) + len(val)))
     else:
         pat_full, text = pat, t
         literal_pos = list(range(len(t)))
@@ -48,6 +52,8 @@ def judge(t, wrap):
     for i in literal_pos:
         near.append(text[:i] + text[i + 1:])                 # one character missing
         near.append(text[:i] + ("#" if text[i] != "#" else "%") + text[i + 1:])
+        if text[i].isalpha():
+            near.append(text[:i] + text[i].swapcase() + text[i + 1:])      # same letter, other case: not the same text
     lines_no = [l for l in near + ["", "zz"] + ([text[:-1], text[1:]] if literal_pos == list(range(len(text))) else []) if text not in l]
     for l in lines_yes:
         m = rx.search(l)
@@ -92,7 +98,7 @@ def run(chk, driver, tier):
         reg = region(t)
         if reg == "anchor":
             continue
-        wrap = rng.random() < 0.3
+        wrap = rng.choice([["MAJOR", "12"], ["TAG", "beta"], ["PYTAG", "rc"], ["YYYY", "2024"], ["BUILD", "1001"], ["TAG", "final"]]) if rng.random() < 0.3 else False
         v = judge(t, wrap)
         if v and reg in known and reg not in seen:
             seen[reg] = t
